@@ -1,0 +1,33 @@
+//go:build verif
+
+package epubdoc
+
+import (
+	"bytes"
+
+	"golang.org/x/net/html"
+)
+
+// Verification hooks for the bounded-work guards (C02). Add-only.
+
+// VerifTreeDeeperThan parses src with x/net/html the way parseNavXHTML does and exposes
+// treeDeeperThan with the given limit.
+func VerifTreeDeeperThan(src []byte, limit int) (bool, error) {
+	doc, err := html.Parse(bytes.NewReader(src))
+	if err != nil {
+		return false, err
+	}
+	return treeDeeperThan(doc, limit), nil
+}
+
+// VerifParseNavXHTML exposes parseNavXHTML: the number of top-level entries, or the error.
+func VerifParseNavXHTML(content []byte) (int, error) {
+	toc, err := parseNavXHTML(content)
+	if err != nil || toc == nil {
+		return 0, err
+	}
+	return len(toc.Entries), nil
+}
+
+// VerifMaxTreeDepth exposes the nesting limit of parseNavXHTML.
+func VerifMaxTreeDepth() int { return maxTreeDepth }
